@@ -16,8 +16,11 @@ def source_of(image):
     return "\n".join(lines) + "\n"
 
 
-def spell(n, radix):
-    return {10: "%d" % n, 16: "0x%x" % n, 2: "0b" + bin(n)[2:]}[radix]
+def spell(n, radix, rng=None):
+    """a byte as the command line accepts it: decimal, 0x (either letter case), 0b - each also with leading zeros"""
+    z = rng.choice(["", "", "0", "00"]) if rng else ""
+    hx = ("%x" if not rng or rng.random() < 0.5 else "%X") % n
+    return {10: z + "%d" % n, 16: "0x" + z + hx, 2: "0b" + z + bin(n)[2:]}[radix]
 
 
 ANSI = re.compile(r"\x1b\[[0-9;]*m")
@@ -69,6 +72,12 @@ def run(tier, seed, replay):
                 else:
                     lst.reverse()
                 c[key] = lst
+        # cycles that are never reached (at or beyond the budget, up to the largest usize) do not change the meaning of a schedule
+        for key in ("ints", "resets"):
+            if key in c and rng0.random() < 0.5:
+                far = [c["n"], c["n"] + 1, c["n"] + 1000, 2 ** 31 - 1, 2 ** 32 - 1, 2 ** 32, 2 ** 63 - 1, 2 ** 63, 2 ** 64 - 2, 2 ** 64 - 1]
+                c[key] = list(c[key]) + rng0.sample(far, rng0.randrange(1, 3))
+                rng0.shuffle(c[key])
     p = os.path.join(vlib.WORK, "runner_cases.ndjson")
     vlib.write_ndjson(p, cases)
     # (a) the library: RunnerConfig::run and RunExpectations::verify on every configuration
@@ -107,10 +116,10 @@ def run(tier, seed, replay):
         for t in c["resets"]:
             args += ["--reset", str(t)]
         for name, val in zip(["--fc", "--fd", "--fe", "--ff"], c["inr"]):
-            args += [name, spell(val, radix)]
+            args += [name, spell(val, radix, rng)]
         b = c.get("bd")
         if b:
-            args += ["--di1", spell(b["di1"], radix), "--temp", "%.3f" % (b["temp"] / 1000.0), "--ai1", "%.3f" % (b["ai1"] / 1000.0), "--ai2", "%.3f" % (b["ai2"] / 1000.0)]
+            args += ["--di1", spell(b["di1"], radix, rng), "--temp", "%.3f" % (b["temp"] / 1000.0), "--ai1", "%.3f" % (b["ai1"] / 1000.0), "--ai2", "%.3f" % (b["ai2"] / 1000.0)]
             for flag in ("j1", "j2", "uio1", "uio2", "uio3"):
                 if b[flag]:
                     args.append("--" + flag)
@@ -120,9 +129,9 @@ def run(tier, seed, replay):
             if e["st"] != "none":
                 args += ["--state", {"Running": "running", "Stopped": "stopped", "ErrorStopped": "error"}[e["st"]]]
             if e["fe"] >= 0:
-                args += ["--fe", spell(e["fe"], radix)]
+                args += ["--fe", spell(e["fe"], radix, rng)]
             if e["ff"] >= 0:
-                args += ["--ff", spell(e["ff"], radix)]
+                args += ["--ff", spell(e["ff"], radix, rng)]
         out = cli(binary, args)
         want_rc = 0 if (not stated or c["ver"][k] == 0) else 1
         diffs = []
